@@ -38,10 +38,15 @@ VARIABLES
 dabsVars == <<now, known, lastSign, lease, ann, attic, fuzzy, stale, totW, totR, viol>>
 
 \* the endpoint table used by the `disc` driver (configurations substitute these for the constants)
-OwnerDef == <<1, 1, 1, 2, 2, 2>>
-IsReaderDef == <<TRUE, FALSE, TRUE, TRUE, FALSE, FALSE>>
-OnTopicDef == <<TRUE, TRUE, TRUE, TRUE, TRUE, FALSE>>
-CompatibleDef == <<TRUE, TRUE, FALSE, TRUE, TRUE, TRUE>>
+\*  e  owner kind   topic QoS                     e  owner kind   topic QoS
+\*  1  p1    reader T     compatible              5  p2    writer T     compatible
+\*  2  p1    writer T     compatible              6  p2    writer other compatible
+\*  3  p1    reader T     incompatible            7  p1    writer T     compatible (different values)
+\*  4  p2    reader T     compatible              8  p1    reader T     compatible (different values)
+OwnerDef == <<1, 1, 1, 2, 2, 2, 1, 1>>
+IsReaderDef == <<TRUE, FALSE, TRUE, TRUE, FALSE, FALSE, FALSE, TRUE>>
+OnTopicDef == <<TRUE, TRUE, TRUE, TRUE, TRUE, FALSE, TRUE, TRUE>>
+CompatibleDef == <<TRUE, TRUE, FALSE, TRUE, TRUE, TRUE, TRUE, TRUE>>
 
 DAbsInit ==
   /\ now = 0
@@ -119,20 +124,22 @@ AbsCleanup(lost, obs) ==
       x2 == IF ~(must \subseteq lost) THEN {"C12_silent_participant_kept"} ELSE {}
       x3 == IF \E p \in gone : p \in obs.parts THEN {"C12_lost_participant_still_known"} ELSE {}
       x4 == IF \E e \in E : Owner[e] \in gone /\ ann[e] /\ e \notin obs.att THEN {"C12_endpoints_of_timed_out_participant_forgotten"} ELSE {}
+      x5 == IF \E e \in obs.wm \cup obs.rm : Owner[e] \in gone THEN {"C12_endpoint_of_lost_participant_still_matched"} ELSE {}
   IN /\ known' = [p \in P |-> known[p] /\ p \notin gone]
      /\ attic' = [e \in E |-> attic[e] \/ (Owner[e] \in gone /\ ann[e])]
-     /\ Finish(annN, [e \in E |-> stale[e] /\ Owner[e] \notin gone], obs, x1 \cup x2 \cup x3 \cup x4)
+     /\ Finish(annN, [e \in E |-> stale[e] /\ Owner[e] \notin gone], obs, x1 \cup x2 \cup x3 \cup x4 \cup x5)
      /\ UNCHANGED <<now, lastSign, lease, fuzzy>>
 
 AbsDisposeP(p, obs) ==
   LET annN == [e \in E |-> ann[e] /\ Owner[e] # p]
       x1 == IF p \in obs.parts THEN {"C12_disposed_participant_still_known"} ELSE {}
       x2 == IF \E e \in E : Owner[e] = p /\ e \in obs.ext THEN {"C12_dispose_left_endpoints_behind"} ELSE {}
+      x3 == IF \E e \in obs.wm \cup obs.rm : Owner[e] = p THEN {"C12_endpoint_of_lost_participant_still_matched"} ELSE {}
   IN /\ known' = [known EXCEPT ![p] = FALSE]
      \* disposed while known: everything goes.  Disposed while lost (its endpoints are in the attic): left open
      /\ attic' = IF known[p] THEN [e \in E |-> attic[e] /\ Owner[e] # p] ELSE attic
      /\ fuzzy' = IF known[p] THEN [e \in E |-> fuzzy[e] /\ Owner[e] # p] ELSE [e \in E |-> fuzzy[e] \/ (attic[e] /\ Owner[e] = p)]
-     /\ Finish(annN, [e \in E |-> stale[e] /\ Owner[e] # p], obs, x1 \cup x2)
+     /\ Finish(annN, [e \in E |-> stale[e] /\ Owner[e] # p], obs, x1 \cup x2 \cup x3)
      /\ UNCHANGED <<now, lastSign, lease>>
 
 \* SEDP announcement (or re-announcement) of endpoint e with the QoS class it always has
